@@ -20,9 +20,9 @@ vars == <<name, slots>>
 
 A == Str(<<97>>)
 B == Str(<<98>>)
-Base == {I(0), I(1), I(2), Lst(<<I(1)>>), Lst(<<I(1), I(2)>>), None, A,
+Base == {I(0), I(1), I(2), Lst(<<I(1)>>), Lst(<<I(1), I(2)>>), Lst(<<>>), None, A,
          Dct([k |-> I(1)]), Dct([k |-> I(2)])}
-More == {B, Lst(<<>>), Lst(<<I(2)>>), Dct([j |-> I(1)]), Dct(<<>>)}
+More == {B, Str(<<>>), Lst(<<I(2)>>), Dct([j |-> I(1)]), Dct(<<>>)}
 Values == IF Rich THEN Base \cup More ELSE Base
 Slots == Values \cup {Absent}
 Names == Builtin \cup {"median"}          \* "median" is not a reducer: the unknown-name case
